@@ -287,3 +287,39 @@ func vh_C17_Failures() {
 	}
 	vfReach("end")
 }
+
+// a request that cannot even be built (a method name that is no HTTP token, through the generic constructors) comes
+// back as Err: nothing is sent, nothing panics; and a positive TimeoutMillisecond leaves a good request untouched
+func vh_C17_UnbuildableRequest() {
+	e := c17New(true)
+	if vfChoose("timeout-set", 2) == 1 {
+		e.api.GetSimpleHTTP().TimeoutMillisecond = 5000
+	}
+	var target c17Target
+	var r *APIResponse[c17Target]
+	bad := vfChoose("bad-method", 2) == 1
+	method := "REPORT"
+	if bad {
+		method = "BAD METHOD"
+	}
+	if !vfNoPanic("nopanic-eval", func() {
+		if vfChoose("with-body", 2) == 0 {
+			r = APIMakeDoNewRequest[c17Target](e.api, method, "r")(nil, &target).Eval()
+		} else {
+			r = APIMakeDoNewRequestWithBodySerializer[string, c17Target](e.api, method, "r", "text/x-report", e.api.RequestSerializerForJSON)(nil, "payload", &target).Eval()
+		}
+	}) {
+		return
+	}
+	if bad {
+		vfAssert("failure-comes-back-as-err", r != nil && r.Err != nil)
+		vfAssert("nothing-else-sent", len(e.tr.seen) == 0)
+	} else {
+		vfAssert("no-error", r != nil && r.Err == nil)
+		vfAssert("one-request-per-evaluation", len(e.tr.seen) == 1)
+		if len(e.tr.seen) == 1 {
+			vfAssert("method", e.tr.seen[0].method == "REPORT")
+		}
+	}
+	vfReach("end")
+}
